@@ -4,7 +4,10 @@ from __future__ import annotations
 
 import struct
 
-from hypothesis import strategies as st
+try:
+    from hypothesis import strategies as st
+except ImportError:  # helper interpreters only need fp / to_json / from_json
+    st = None
 
 # ----------------------------------------------------------------------------- fingerprint
 
@@ -86,11 +89,6 @@ def to_json(v):
         return {"S": _sorted_json(v)}
     if t is frozenset:
         return {"F": _sorted_json(v)}
-    if isinstance(v, Unsupported):
-        return {"u": v.name}
-    for name, mk in UNSUPPORTED.items():  # an unsupported leaf produced by the pool
-        if getattr(v, "_verif_leaf", None) == name:
-            return {"u": name}
     return {"u": getattr(v, "_verif_leaf", "?" + t.__name__)}
 
 
@@ -293,12 +291,6 @@ def depth(v) -> int:
 # ----------------------------------------------------------------------------- unsupported leaves
 
 
-class Unsupported:
-    """marker used only inside this module"""
-
-    name = "?"
-
-
 def _mk_user_instance():
     class Foo:
         pass
@@ -324,10 +316,6 @@ def _intenum():
         RED = 1
 
     return Color.RED
-
-
-def _hashable_only(name):
-    return name in HASHABLE_LEAVES
 
 
 UNSUPPORTED = {
@@ -394,25 +382,6 @@ def make_unsupported(name):
     except (AttributeError, TypeError):
         pass
     return v
-
-
-def leaf_name(v):
-    """name of the pool entry an object came from (for encode), by identity of construction"""
-    n = getattr(v, "_verif_leaf", None)
-    if n:
-        return n
-    for name in UNSUPPORTED:
-        try:
-            w = UNSUPPORTED[name]()
-        except Exception:
-            continue
-        if type(w) is type(v) and type(v).__module__ != __name__:
-            try:
-                if w == v or name in ("object",):
-                    return name
-            except Exception:
-                pass
-    return "?" + type(v).__name__
 
 
 def unsupported_cases():
